@@ -5,7 +5,7 @@ import Dawn.Model.Env
     fp <cfg> <root> <heap>            → `ok <hex of the bytes>` | `err outOfFuel` | `err badRef`
     ops <cfg> <root> <heap>           → `ok <number of opcodes> <number of MEMOIZE> <number of Recursive markers>`
     eq <limit> <x> <y> <heap>         → `ok 0|1` | `err depth`        (`starlark.EqualDepth`, both values in one heap)
-    decide <old|fixed> <same 0|1> <x> <y> <heap> → `upToDate` | `rerun` | `buildError`   (`diffEnv`; `-` for x = never run)
+    decide <old|d16|fixed> <same 0|1> <x> <y> <heap> → `upToDate` | `rerun` | `buildError`   (`diffEnv`; `-` for x = never run)
 
   <cfg> is six characters 0/1: per-encoding pickler, batch re-encode, counter memo ids, builtin identity, signature,
   mandatory placeholder (which version of function.go / pickle/encode.go the tree has; from the extractor).
@@ -132,7 +132,8 @@ def step (line : String) : String :=
       match old with
       | none => "bad-input"
       | some old =>
-        let d := if which == "fixed" then diffEnvFixed old new else diffEnvOld old new
+        let d := if which == "fixed" then diffEnvFixed old new
+                 else if which == "d16" then diffEnvD16 old new else diffEnvOld old new
         match d with
         | .upToDate => "upToDate"
         | .rerun _ => "rerun"
